@@ -1093,7 +1093,7 @@ def check_sentinels(ctx):
                     if m and which is None:
                         d = u.by_id.get(m.group(2))
                         ik = Keys(u).key(kids(d)[-1]) if d is not None and kids(d) else ''
-                        which = 'back' if '.back()' in ik else 'front' if '.front()' in ik else None
+                        which = 'back' if ('.back()' in ik or 'size() - n:1' in ik) else 'front' if ('.front()' in ik or '[n:0]' in ik) else None
                     if half == 'first' and which == 'front' and ((op == '<' and a == ka and b == 'n:0')):
                         cut_edges.append((n.id, lab))
                     if half == 'second' and which == 'back' and ((op == '<=' and a == 'n:0' and b == ka)):
